@@ -1995,6 +1995,8 @@ class Interp:
                 if r in (True, False):
                     self.case_log.append(("size", str(c), r))
                     return r
+            if getattr(self, "no_generic_sizes", False):
+                return None      # a concrete small size is being replayed: what it does not decide stays an open question
             r = self._generic(c)
             if r == sp.true:
                 self.case_log.append(("size-generic", str(c), True))
